@@ -179,6 +179,7 @@ type world struct {
 	blackhole int
 	sentLog   []dgram // everything ever sent (also black-holed), for oracles
 	onSend    func(s *vsock, d dgram)
+	lose      func(s *vsock, d dgram) bool // the network loses this datagram on its own (a loss that is not an event)
 	onDeliver func(dst *vsock, src string, data []byte)
 }
 
@@ -227,7 +228,7 @@ func (w *world) send(s *vsock, dst string, b []byte) {
 	if w.onSend != nil {
 		w.onSend(s, d)
 	}
-	if w.routable(s.name, dst) == nil {
+	if w.routable(s.name, dst) == nil || (w.lose != nil && w.lose(s, d)) {
 		w.blackhole++ // can never have an effect on anyone: not kept in flight
 
 		return
@@ -354,26 +355,28 @@ func (d dgram) describe() string {
 // NAT; only the private address is signalled, so the peer has to discover a peer-reflexive candidate),
 // "srflx" (server-reflexive candidate on its own socket behind a cone NAT, the external address is signalled).
 type pairCfg struct {
-	KindsA   []string `json:"kinds_a"`
-	KindsB   []string `json:"kinds_b"`
-	Blocked  []string `json:"blocked,omitempty"` // directed socket links that never deliver, e.g. "b0>a0"
-	RoleA    string   `json:"role_a,omitempty"`  // "controlling" (default) | "controlled"
-	RoleB    string   `json:"role_b,omitempty"`  // "controlled" (default) | "controlling"
-	TieA     uint64   `json:"tie_a,omitempty"`
-	TieB     uint64   `json:"tie_b,omitempty"`
-	LiteB    bool     `json:"lite_b,omitempty"`
-	Renom    bool     `json:"renom,omitempty"`
+	KindsA    []string `json:"kinds_a"`
+	KindsB    []string `json:"kinds_b"`
+	Blocked   []string `json:"blocked,omitempty"` // directed socket links that never deliver, e.g. "b0>a0"
+	RoleA     string   `json:"role_a,omitempty"`  // "controlling" (default) | "controlled"
+	RoleB     string   `json:"role_b,omitempty"`  // "controlled" (default) | "controlling"
+	TieA      uint64   `json:"tie_a,omitempty"`
+	TieB      uint64   `json:"tie_b,omitempty"`
+	LiteB     bool     `json:"lite_b,omitempty"`
+	Renom     bool     `json:"renom,omitempty"`
 	NomValues []uint32 `json:"nom_values,omitempty"` // first values of each agent's nomination value generator
-	Ticks    int      `json:"ticks"` // per agent
-	Drops    int      `json:"drops"`
-	Dups     int      `json:"dups"`
-	Restarts int      `json:"restarts,omitempty"`
-	FairMax  int      `json:"fair_max,omitempty"` // rounds of the fair suffix
-	Trickle  bool     `json:"trickle,omitempty"`  // remote candidates are signalled by events instead of up front
-	Dev      int      `json:"dev,omitempty"`      // >0: deviation-bounded mode with this many deviations
-	PrioA    []uint32 `json:"prio_a,omitempty"`
-	PrioB    []uint32 `json:"prio_b,omitempty"`
-	Monitor  bool     `json:"monitor,omitempty"` // evaluate the C03 selection ledger after every event
+	LoseA     int      `json:"lose_a,omitempty"`     // the first LoseA Binding requests A sends are lost (a loss prefix as long as the retry budget)
+	LoseB     int      `json:"lose_b,omitempty"`
+	Ticks     int      `json:"ticks"` // per agent
+	Drops     int      `json:"drops"`
+	Dups      int      `json:"dups"`
+	Restarts  int      `json:"restarts,omitempty"`
+	FairMax   int      `json:"fair_max,omitempty"` // rounds of the fair suffix
+	Trickle   bool     `json:"trickle,omitempty"`  // remote candidates are signalled by events instead of up front
+	Dev       int      `json:"dev,omitempty"`      // >0: deviation-bounded mode with this many deviations
+	PrioA     []uint32 `json:"prio_a,omitempty"`
+	PrioB     []uint32 `json:"prio_b,omitempty"`
+	Monitor   bool     `json:"monitor,omitempty"` // evaluate the C03 selection ledger after every event
 }
 
 const (
@@ -412,9 +415,10 @@ type pairWorld struct {
 	contacts map[*Agent]func()
 	// restart exchange in progress: 0 none, 1 offer under way, 2 answer under way; initiator; exchanges started
 	exch, exchInit, exchanges int
-	cmu      sync.Mutex
-	ledgers  [2]*ledger
-	monitor  bool // evaluate the C03 selection oracle after every event
+	lost                      [2]int // Binding requests lost under LoseA / LoseB
+	cmu                       sync.Mutex
+	ledgers                   [2]*ledger
+	monitor                   bool // evaluate the C03 selection oracle after every event
 }
 
 func sideAddr(side, i int, kind string) (ip string, port int, ext string) {
@@ -568,6 +572,23 @@ func newPairWorld(raw json.RawMessage) *pairWorld {
 	}
 	pw.ledgers = [2]*ledger{newLedger(), newLedger()}
 	pw.onSend = pw.ledgerSend
+	pw.lose = func(s *vsock, d dgram) bool {
+		i := pw.sideOfSock(s)
+		if i < 0 {
+			return false
+		}
+		budget := pw.cfg.LoseA
+		if i == 1 {
+			budget = pw.cfg.LoseB
+		}
+		if si := describeSTUN(d.data); pw.lost[i] < budget && si.isSTUN && si.class == "request" {
+			pw.lost[i]++
+
+			return true
+		}
+
+		return false
+	}
 	pw.onDeliver = pw.ledgerDeliver
 	cfg := pw.cfg
 	for _, b := range cfg.Blocked {
